@@ -93,8 +93,12 @@ fn resolve_iteratively(
     {
         iter_count += 1;
 
+        // While the enclosing resolution is still guessing, symbols it
+        // has not reached yet are unknown here too, and not an error
         let is_first_iteration = iter_count == 1;
-        let is_last_iteration = iter_count == max_iterations;
+        let is_last_iteration =
+            iter_count == max_iterations &&
+            ctx.is_last_iteration;
 
         let result = resolve_once(
             opts,
@@ -124,7 +128,7 @@ fn resolve_iteratively(
         position_at_start,
         labels,
         false,
-        true)?;
+        ctx.is_last_iteration)?;
 
     if !result.unstable
     {
